@@ -333,16 +333,20 @@ def monitor(ctx, casefile):
         D = docs()
         doc_jwk = D["penv"]["azure"]["openid.client-jwk"]
         doc_acr = D["provider_defaults"]["idporten"]["openid.acr-values"]
-        for key, reading, what in (
+        for key, reading, what, refusal_classes in (
             ("docs-azure-jwk-env-name", {"azure_jwk_env": [x for x in ALT_AZURE_JWK if x != doc_jwk][0]},
              "provider=azure: docs/configuration.md names %s for the client JWK, the binary reads another variable "
-             "(a configuration following the documentation is refused for missing credentials / the documented variable is ignored)" % doc_jwk),
+             "(a configuration following the documentation is refused for missing credentials / the documented variable is ignored)" % doc_jwk,
+             (40, 41)),
             ("docs-idporten-default-acr", {"idporten_acr": [x for x in ALT_IDPORTEN_ACR if x != doc_acr][0]},
-             "provider=idporten: the documented default of openid.acr-values is %s, the binary behaves as if it were another value" % doc_acr),
+             "provider=idporten: the documented default of openid.acr-values is %s, the binary behaves as if it were another value" % doc_acr,
+             (46,)),
         ):
             alt_bad, _ = rules(case, **reading)
             alts.append((key, what, alt_bad))
-            if started == (not alt_bad):
+            # the other reading names the disagreement only if it explains the binary's answer: same decision, and for a
+            # refusal the binary's own error must be the one that reading predicts (credentials / acr), not something else
+            if started == (not alt_bad) and (started or res["code"] in refusal_classes):
                 ctx.violation(key, what, small)
                 named = True
                 break
@@ -409,6 +413,10 @@ def run(ctx):
     ctx.rule = ("binary runs: valid base configuration per mode (standalone, SSO server, SSO proxy) x provider (openid, azure, idporten); "
                 "every pool value of every setting on the flag and on the WONDERWALL_ variable; provider-specific variables in every "
                 "subset; 15 discovery-document shapes; 2-, 3- and 4..11-fold random mutations (which failing check comes first); "
+                "support lists, full cross product: configured acr {unset, idporten-loa-substantial, idporten-loa-high, Level3, Level4, other-acr, Level5} x every subset of "
+                "advertised {substantial, high, Level3, Level4, other-acr}; configured locale {unset, nb, en, se, xx, nn} x subsets of {nb, en, se, xx}; configured "
+                "signing alg {unset, RS256, ES256, PS256, none, HS256, XX} x subsets of {RS256, ES256, PS256, none}; each in standalone and SSO server x openid/azure/idporten "
+                "(SSO proxy: one row per configured value); "
                 "distinct_nontrivial = distinct (listening, outcome class, first violated documented rules) signatures. "
                 "In-process: key strings exhaustive over {A = LF ! /} up to length 7 + encodings of 0..40 bytes and damaged variants + random; "
                 "ingress strings = every sequence of up to 3 of 30 URL pieces, secure and insecure, + random longer; pools x single deviations x random combinations of the other Validate fields")
